@@ -108,6 +108,24 @@ func (w *Worker) resolveExternal(fn *ssa.Function, name string) extFn {
 	if e, ok := externTable[name]; ok {
 		return func(fr *frame, args []value) value { return e(fr, fn, args) }
 	}
+	// unique.Make[T] (any instantiation) on concrete values: one cell per distinct value and path, so that handles
+	// of equal values are equal pointers (net/netip uses it for the IPv4 / IPv6 / zone markers of an address)
+	if name == "unique.Make" || strings.HasPrefix(name, "unique.Make[") {
+		return func(fr *frame, a []value) value {
+			in := fr.in
+			key := fn.String() + "|" + concreteKey(in, a[0])
+			if in.uniq == nil {
+				in.uniq = map[string]*value{}
+			}
+			cell, ok := in.uniq[key]
+			if !ok {
+				v := a[0]
+				cell = &v
+				in.uniq[key] = cell
+			}
+			return structure{cell}
+		}
+	}
 	// sync/atomic.Pointer[T] (any instantiation): the pointer lives in a side table keyed by the receiver; every
 	// method is a scheduling point
 	if strings.HasPrefix(name, "(*sync/atomic.Pointer[") {
@@ -385,6 +403,23 @@ func init() {
 		},
 		"math/rand.New":       func(fr *frame, fn *ssa.Function, a []value) value { return (*value)(nil) },
 		"math/rand.NewSource": func(fr *frame, fn *ssa.Function, a []value) value { return iface{} },
+		// assembly-backed helpers of the strings package, on concrete strings
+		"internal/bytealg.IndexByteString": func(fr *frame, fn *ssa.Function, a []value) value {
+			s, ok := a[0].(string)
+			c, ok2 := a[1].(uint8)
+			if !ok || !ok2 {
+				fr.in.unsupported("bytealg.IndexByteString on a symbolic string")
+			}
+			return strings.IndexByte(s, c)
+		},
+		"internal/bytealg.CountString": func(fr *frame, fn *ssa.Function, a []value) value {
+			s, ok := a[0].(string)
+			c, ok2 := a[1].(uint8)
+			if !ok || !ok2 {
+				fr.in.unsupported("bytealg.CountString on a symbolic string")
+			}
+			return strings.Count(s, string(rune(c)))
+		},
 		"sort.Strings": func(fr *frame, fn *ssa.Function, a []value) value {
 			xs := a[0].([]value)
 			for i := 1; i < len(xs); i++ {
@@ -870,4 +905,28 @@ func (in *Interp) strOrdReach(from, to string) bool {
 		}
 	}
 	return false
+}
+
+// concreteKey renders a concrete value of basic / struct / array shape as a map key; symbolic parts are unsupported.
+func concreteKey(in *Interp, v value) string {
+	switch x := v.(type) {
+	case structure:
+		s := "{"
+		for _, f := range x {
+			s += concreteKey(in, f) + ","
+		}
+		return s + "}"
+	case array:
+		s := "["
+		for _, f := range x {
+			s += concreteKey(in, f) + ","
+		}
+		return s + "]"
+	case *Sym:
+		in.unsupported("unique.Make of a symbolic value")
+	case bool, string, int, int8, int16, int32, int64, uint, uint8, uint16, uint32, uint64, uintptr:
+		return fmt.Sprintf("%T:%v", x, x)
+	}
+	in.unsupported("unique.Make of %T", v)
+	return ""
 }
